@@ -1,2 +1,131 @@
-/-! Driver for C22 (stub: not built yet). -/
-def main : IO Unit := pure ()
+import Drivers.Proto
+import PymocaVerif.Model.Delay
+/-! Driver for C22: classification of the symbols (model of C10), delay translation, duration
+    check, and exact evaluation of the delay arguments on the serialised flat class. -/
+open Lean Drivers PymocaVerif.Classify PymocaVerif.Delay
+
+partial def parseNode (j : Json) : Except String Node := do
+  let k ← getStr j "k"
+  let n ← getStr j "n"
+  let f ← getBool j "f"
+  let cs ← getArr j "c"
+  let kids ← cs.toList.mapM parseNode
+  pure (.mk k n f kids)
+
+def parseSym (j : Json) : Except String (Sym × Bool) := do
+  let name ← getStr j "name"
+  let pf ← (← getArr j "prefixes").toList.mapM (·.getStr?)
+  let ty ← getStr j "type"
+  let order ← getInt j "order"
+  let dims ← (← getArr j "dims").toList.mapM (·.getInt?)
+  let fixed ← getBool j "fixed"
+  pure ({ name := name, prefixes := pf, type := ty, order := order, dims := dims }, fixed)
+
+abbrev PM := StateT Nat (Except String)
+
+partial def parseExpr (j : Json) : PM Expr := do
+  let t ← (getStr j "t" : Except String String)
+  match t with
+  | "lit" => do
+    let n ← (getInt j "n" : Except String Int)
+    let d ← (getNat j "d" : Except String Nat)
+    pure (.lit (mkRat n d))
+  | "time" => pure .time
+  | "ref" => do pure (.ref (← (getStr j "name" : Except String String)))
+  | "idx" => do
+    let n ← (getStr j "name" : Except String String)
+    let i ← parseExpr (← (getObj j "i" : Except String Json))
+    pure (.idx n i)
+  | "der" => do
+    let e ← parseExpr (← (getObj j "e" : Except String Json))
+    match e with
+    | .ref n => pure (.der n)
+    | .idx n i => pure (.derAt n i)
+    | _ => throw "der of a non-reference"
+  | "neg" => do pure (.neg (← parseExpr (← (getObj j "e" : Except String Json))))
+  | "bin" => do
+    let o ← (getStr j "op" : Except String String)
+    let op ← match o with
+      | "+" => pure BinOp.add | "-" => pure BinOp.sub | "*" => pure BinOp.mul | "/" => pure BinOp.div
+      | x => throw s!"bad-op {x}"
+    let a ← parseExpr (← (getObj j "a" : Except String Json))
+    let b ← parseExpr (← (getObj j "b" : Except String Json))
+    pure (.bin op a b)
+  | "delay" => do
+    let id ← get
+    set (id + 1)
+    let a ← parseExpr (← (getObj j "a" : Except String Json))
+    let d ← parseExpr (← (getObj j "d" : Except String Json))
+    pure (.delay id a d)
+  | x => throw s!"bad-expr {x}"
+
+partial def parseEq (j : Json) : PM Equation := do
+  let t ← (getStr j "t" : Except String String)
+  match t with
+  | "eq" => do
+    let l ← parseExpr (← (getObj j "l" : Except String Json))
+    let r ← parseExpr (← (getObj j "r" : Except String Json))
+    pure (.eq l r)
+  | "for" => do
+    let v ← (getStr j "var" : Except String String)
+    let lo ← (getInt j "lo" : Except String Int)
+    let hi ← (getInt j "hi" : Except String Int)
+    if lo != 1 then throw "for-loop must start at 1"
+    let body ← (← (getArr j "body" : Except String (Array Json))).toList.mapM fun b => do
+      let q ← parseEq b
+      match q with
+      | .eq l r => pure (l, r)
+      | _ => throw "nested for-loop"
+    pure (.forEq v hi.toNat body)
+  | x => throw s!"bad-eq {x}"
+
+def ratJson : Option Rat → Json
+  | none => Json.null
+  | some q => Json.arr #[Json.num (q.num : Int), Json.num ((q.den : Nat) : Int)]
+
+def parseEnv (j : Json) : Except String Env := do
+  let t ← getArr j "time"
+  let tn ← (t[0]?.getD Json.null).getInt?
+  let td ← (t[1]?.getD Json.null).getNat?
+  let vals ← (← getArr j "vals").toList.mapM fun (v : Json) => do
+    let a ← v.getArr?
+    let nm ← (a[0]?.getD Json.null).getStr?
+    let ix ← (a[1]?.getD Json.null).getNat?
+    let n ← (a[2]?.getD Json.null).getInt?
+    let d ← (a[3]?.getD Json.null).getNat?
+    pure ((nm, ix), mkRat n d)
+  pure { time := mkRat tn td,
+         val := fun nm ix => (vals.find? (fun p => p.1.1 == nm && p.1.2 == ix)).map (·.2) }
+
+def verdictStr : Verdict → String
+  | .assertionError => "assertionError" | .reject => "reject" | .freeSymbol => "freeSymbol" | .accept => "accept"
+
+def handle (req : Json) : Except String Json := do
+  let op ← getStr req "op"
+  match op with
+  | "delay" => do
+    let symsF ← (← getArr req "symbols").toList.mapM parseSym
+    let t ← parseNode (← getObj req "tree")
+    let parsed ← ((do
+        let ie ← (← (getArr req "ieqs" : Except String (Array Json))).toList.mapM parseEq
+        let e ← (← (getArr req "eqs" : Except String (Array Json))).toList.mapM parseEq
+        pure (ie, e)) : PM (List Equation × List Equation)).run' 0
+    let envs ← (← getArr req "envs").toList.mapM parseEnv
+    match annotate (symsF.map (·.1)) t with
+    | none => pure (Json.mkObj [("ok", true), ("verdict", "annotate:AssertionError")])
+    | some syms' =>
+      let cats : Cats := {
+        cat := fun n => (syms'.find? (fun s => s.name == n)).map (·.cat)
+        fixed := fun n => ((symsF.find? (fun p => p.1.name == n)).map (·.2)).getD false }
+      let tl := translate parsed.1 parsed.2
+      let v := verdict cats tl
+      let values := envs.map fun ρ =>
+        Json.arr ((evalArgs ρ tl.args).flatMap (fun p =>
+          [Json.arr (p.1.map ratJson).toArray, Json.arr #[ratJson p.2]])).toArray
+      pure (Json.mkObj [("ok", true), ("verdict", verdictStr v),
+        ("delay_states", jstrs (tl.args.map (fun a => delayName a.k))),
+        ("ids", Json.arr (tl.args.map (fun a => Json.num (a.id : Int))).toArray),
+        ("values", Json.arr values.toArray)])
+  | o => throw s!"unknown-op {o}"
+
+def main : IO Unit := serve handle
